@@ -210,6 +210,13 @@ def run(tier):
                 + "".join("make v%d get %d\n" % (i, i) for i in range(pos, n)) + "shout(f(1))\n"
             texts.append(src)
             n_wide += 1
+    # every member built-in x every statically known receiver type x 0..3 arguments (GenMethodArity.tla)
+    fam = le.generate("GenMethodArity", cfg="lang/GenMethodArity.cfg", coverage=False, timeout=600)
+    states += fam.distinct
+    transitions += fam.generated
+    for c in fam.records:
+        texts.append(nsast.render(c["prog"])[0])
+    n_family = len(fam.records)
     res = front(texts)
     counts = collections.Counter()
     token_agree = token_differ = 0
@@ -261,7 +268,7 @@ def run(tier):
     render_info = renderer_conformance(rnd.sample(texts[:n_sweep], min(n_sweep, 1500 if q else 8000)) + rnd.sample(texts[n_sweep:n_sweep + n_mut + n_rand], 300 if q else 2000))
     v.coverage = {"states": states, "transitions": transitions, "traces_validated_against_impl": counts["ok"],
                   "renderer_conformance_(information_only)": render_info,
-                  "texts_enumerated_by_tlc": n_sweep, "token_mutations_of_generated_programs": n_mut, "random_mutations_of_corpus": n_rand, "wide_programs": n_wide,
+                  "texts_enumerated_by_tlc": n_sweep, "token_mutations_of_generated_programs": n_mut, "random_mutations_of_corpus": n_rand, "wide_programs": n_wide, "member_call_arity_family": n_family,
                   "results": dict(counts), "clean_texts_with_same_tokens_as_reference": token_agree, "clean_texts_with_other_tokens_(information_only)": token_differ,
                   "gating_texts_with_errors_checked": gated, "evaluations": len(texts), "distinct_nontrivial": len(set(texts)),
                   "rule": "every text over the alphabet up to the bound (TLC), plus token mutations and byte mutations; all are non-trivial (every text must survive); distinct texts counted",
